@@ -315,6 +315,160 @@ def brentMax (f : α → α) (sqrtEps gm xtol a b : α) (maxiter : Int) : Option
 
 end generic
 
+/-! ### nelder_mead (nelder_mead.py 116-122, 185-296, 320-337, 404-445) -/
+
+section nm
+variable {α : Type} [Zero α] [One α] [Add α] [Sub α] [Mul α] [Div α] [Neg α]
+  [LT α] [LE α] [DecidableLT α] [DecidableLE α] [BEq α]
+
+def vsub (a b : List α) : List α := List.zipWith (· - ·) a b
+def vadd (a b : List α) : List α := List.zipWith (· + ·) a b
+def smul (c : α) (v : List α) : List α := v.map (c * ·)
+def vdiv (v : List α) (c : α) : List α := v.map (· / c)
+/-- the integer `n` as a scalar (`float(n)`; exact for the small `n` used) -/
+def natA : Nat → α
+  | 0 => 0
+  | n + 1 => natA n + 1
+def powA (x : α) : Nat → α
+  | 0 => 1
+  | n + 1 => powA x n * x
+
+/-- `_check_bounds`: `bounds = []` encodes the shape `(0, 2)` (no bounds) -/
+def inBounds (bounds : List (α × α)) (x : List α) : Bool :=
+  if bounds.isEmpty then true
+  else (List.zipWith (fun (b : α × α) xi => decide (b.1 ≤ xi)) bounds x).all id &&
+       (List.zipWith (fun (b : α × α) xi => decide (xi ≤ b.2)) bounds x).all id
+
+/-- `_neg_bounded_fun`: `-fun(x)` inside the bounds, `+inf` (the parameter `pinf`) outside -/
+def negF (f : List α → α) (pinf : α) (bounds : List (α × α)) (x : List α) : α :=
+  if inBounds bounds x then -(f x) else pinf
+
+/-- insert index `i` into the index list sorted by `vals`, after every entry not larger (stable) -/
+def insIdx (vals : List α) (i : Nat) : List Nat → List Nat
+  | [] => [i]
+  | j :: rest => if vals.getD i 0 < vals.getD j 0 then i :: j :: rest else j :: insIdx vals i rest
+
+/-- `vals.argsort()` (stable; the arrays here have at most 4 entries, insertion sort in Numba) -/
+def argsort (vals : List α) : List Nat :=
+  (List.range vals.length).foldl (fun acc i => insIdx vals i acc) []
+
+structure NMP (α : Type) where
+  ρ : α
+  χ : α
+  γ : α
+  σ : α
+  tolf : α
+  tolx : α
+  pinf : α
+
+structure NM (α : Type) where
+  verts : List (List α)
+  fval : List α
+  sind : List Nat
+  xbar : List α
+  lv : α
+  nit : Nat
+
+/-- `_initialize_simplex` with `k105 = 1 + 0.05`, `zdelt = 0.00025` -/
+def initSimplex (k105 zdelt : α) (x0 : List α) : List (List α) :=
+  x0 :: (List.range x0.length).map fun i =>
+    x0.set i (if x0.getD i 0 != 0 then x0.getD i 0 * k105 else zdelt)
+
+/-- column sums of the listed rows, accumulated row by row from 0 -/
+def sumRows (n : Nat) (rows : List (List α)) : List α :=
+  rows.foldl vadd (List.replicate n 0)
+
+/-- the nonshrink ordering rule (lines 285-289): insert `w` before the first `j` with
+    `f_val[w] < f_val[j]`, dropping the last entry -/
+def reinsert (fval : List α) (w : Nat) (sind : List Nat) : List Nat :=
+  match sind.findIdx? (fun j => decide (fval.getD w 0 < fval.getD j 0)) with
+  | some i => sind.take i ++ [w] ++ (sind.drop i).dropLast
+  | none => sind
+
+def nmInit (f : List α → α) (P : NMP α) (bounds : List (α × α)) (verts : List (List α)) : NM α :=
+  let n := verts.length - 1
+  let fval := verts.map (negF f P.pinf bounds)
+  let sind := argsort fval
+  let xbar := vdiv (sumRows n ((sind.take n).map fun i => verts.getD i [])) (natA n)
+  ⟨verts, fval, sind, xbar, 1, 0⟩
+
+/-- one pass of the `while True` body after the termination test (lines 222-293) -/
+def nmIter (f : List α → α) (P : NMP α) (bounds : List (α × α)) (s : NM α) : NM α :=
+  let n := s.verts.length - 1
+  let nA : α := natA n
+  let F := negF f P.pinf bounds
+  let best := s.sind.getD 0 0
+  let worst := s.sind.getD n 0
+  let vworst := s.verts.getD worst []
+  let fbest := s.fval.getD best 0
+  let fworst := s.fval.getD worst 0
+  let xr := vadd s.xbar (smul P.ρ (vsub s.xbar vworst))
+  let fr := F xr
+  -- `some (vertex, LV factor)` for an accepted point, `none` for shrink
+  let acc : Option (List α × α) :=
+    if fbest ≤ fr ∧ fr < s.fval.getD (s.sind.getD (n - 1) 0) 0 then some (xr, P.ρ)
+    else if fr < fbest then
+      let xe := vadd s.xbar (smul P.χ (vsub xr s.xbar))
+      let fe := F xe
+      if fe < fr then some (xe, P.ρ * P.χ) else some (xr, P.ρ)
+    else
+      let temp := smul P.γ (vsub xr s.xbar)
+      let xc := if fr < fworst then vadd s.xbar temp else vsub s.xbar temp
+      let upd := if fr < fworst then P.ρ * P.γ else P.γ
+      let fc := F xc
+      if fc < pmin fr fworst then some (xc, upd) else none
+  match acc with
+  | some (v, fac) =>
+    let verts := s.verts.set worst v
+    let fval := s.fval.set worst (F v)
+    let sind := reinsert fval worst s.sind
+    let xbar := vadd s.xbar (vdiv (vsub v (verts.getD (sind.getD n 0) [])) nA)
+    ⟨verts, fval, sind, xbar, s.lv * fac, s.nit + 1⟩
+  | none =>
+    -- shrink: `for i in sort_ind[1:]` (sequential, so a repeated index is shrunk twice)
+    let vf := (s.sind.drop 1).foldl (fun (vf : List (List α) × List α) i =>
+      let vb := vf.1.getD best []
+      let vi := vadd vb (smul P.σ (vsub (vf.1.getD i []) vb))
+      (vf.1.set i vi, vf.2.set i (F vi))) (s.verts, s.fval)
+    let verts := vf.1
+    let fval := vf.2
+    -- `sort_ind[1:] = f_val[sort_ind[1:]].argsort() + 1` : positions + 1, as written
+    let sind := best :: (argsort ((s.sind.drop 1).map fun i => fval.getD i 0)).map (· + 1)
+    let vb := verts.getD best []
+    let xbar := vadd (vadd vb (smul P.σ (vsub s.xbar vb)))
+      (vdiv (vsub (verts.getD worst []) (verts.getD (sind.getD n 0) [])) nA)
+    ⟨verts, fval, sind, xbar, s.lv * powA P.σ n, s.nit + 1⟩
+
+/-- the `while True` loop: final state and `fail` -/
+def nmLoop (f : List α → α) (P : NMP α) (bounds : List (α × α)) (maxIter : Nat) :
+    Nat → NM α → NM α × Bool
+  | 0, s => (s, true)
+  | fuel + 1, s =>
+    let n := s.verts.length - 1
+    let fail := decide (maxIter ≤ s.nit)
+    let best := s.sind.getD 0 0
+    let worst := s.sind.getD n 0
+    let termf := decide (s.fval.getD worst 0 - s.fval.getD best 0 < P.tolf)
+    let termx := decide (s.lv < P.tolx)
+    if termx || termf || fail then (s, fail) else nmLoop f P bounds maxIter fuel (nmIter f P bounds s)
+
+/-- `nelder_mead(fun, x0, bounds, tol_f, tol_x, max_iter)` after `_check_params`:
+    `(x, fun, success, nit, final_simplex)` -/
+def nelderMead (f : List α → α) (P : NMP α) (k105 zdelt : α) (bounds : List (α × α)) (x0 : List α)
+    (maxIter : Nat) : List α × α × Bool × Nat × List (List α) :=
+  let r := nmLoop f P bounds maxIter (maxIter + 1) (nmInit f P bounds (initSimplex k105 zdelt x0))
+  let b := r.1.sind.getD 0 0
+  (r.1.verts.getD b [], -(r.1.fval.getD b 0), !r.2, r.1.nit, r.1.verts)
+
+/-- test objective of the harness: `k − Σ_i (x_i−c_i)·(Σ_j A_ij (x_j−c_j))`, accumulated from 0 in
+    index order -/
+def quadObj (A : List (List α)) (c : List α) (k : α) (x : List α) : α :=
+  let d := vsub x c
+  k - (List.zipWith (fun (row : List α) di =>
+        di * (List.zipWith (· * ·) row d).foldl (· + ·) 0) A d).foldl (· + ·) 0
+
+end nm
+
 /-! ### objective functions on the wire: postfix programs -/
 
 inductive Tok (α : Type) where
@@ -420,6 +574,18 @@ def handleSc (sc : Sc α) (toks : List String) : String :=
         sc.shw xf ++ " " ++ sc.shw fval ++ " " ++ toString flag ++ " " ++ toString num
       | none => "ERR:ValueError"
     | _, _, _, _, _, _, _ => "bad-op"
+  | "neldermead" :: r =>
+    match (kv r "A").bind (parseMat? sc.num), (kv r "c").bind (parseList? sc.num), kvNum sc r "k",
+          (kv r "x0").bind (parseList? sc.num), (kv r "bounds").bind (parseMat? sc.num),
+          kvNum sc r "tolf", kvNum sc r "tolx", kvNat r "maxiter", kvNum sc r "k105", kvNum sc r "zdelt",
+          kvNum sc r "pinf" with
+    | some A, some c, some k, some x0, some bnds, some tolf, some tolx, some mi, some k105, some zd, some pinf =>
+      let P : NMP α := ⟨1, two, half, half, tolf, tolx, pinf⟩
+      let bounds := bnds.map fun b => (b.getD 0 0, b.getD 1 0)
+      let (x, fv, ok, nit, verts) := nelderMead (quadObj A c k) P k105 zd bounds x0 mi
+      showList sc.shw x ++ " " ++ sc.shw fv ++ " " ++ showBool ok ++ " " ++ toString nit ++ " " ++
+        showMat sc.shw verts
+    | _, _, _, _, _, _, _, _, _, _, _ => "bad-op"
   | _ => "bad-op"
 
 end handler
